@@ -260,7 +260,17 @@ impl<'tcx> Cx<'tcx> {
         let p = self.path(did);
         matches!(
             p.as_str(),
-            "core::option::Option" | "core::result::Result" | "core::ops::Range" | "core::ops::RangeInclusive" | "core::ops::RangeFrom" | "core::ops::RangeTo" | "core::ops::ControlFlow" | "core::cmp::Ordering" | "core::convert::Infallible"
+            "core::option::Option"
+                | "core::result::Result"
+                | "core::ops::range::Range"
+                | "core::ops::range::RangeInclusive"
+                | "core::ops::range::RangeFrom"
+                | "core::ops::range::RangeTo"
+                | "core::ops::range::RangeToInclusive"
+                | "core::ops::range::RangeFull"
+                | "core::ops::control_flow::ControlFlow"
+                | "core::cmp::Ordering"
+                | "core::convert::Infallible"
         )
     }
 
